@@ -205,6 +205,16 @@ func (h *history) start(is ...int) bool {
 			h.cl.Metas[i].Running = false
 			why := ""
 			if strings.Contains(err.Error(), "did not finish opening") {
+				if site, stack, ok := openDeadlock(); ok {
+					known := r.Violation("C07/restart-hangs/"+site, h.id, fmt.Sprintf("meta node %d never finished opening after a restart: the goroutine inside store.open is blocked on a lock at the same stack in two dumps taken 5 s apart (after the %v start watchdog)", i, 120*time.Second),
+						map[string]interface{}{"history": h.id, "node": i, "blocked_stack": stack, "ops": len(h.ops), "faults": h.faults})
+					if !known {
+						// the stuck server lives in this process and cannot be
+						// stopped; further histories would only wait for it
+						r.Finish()
+					}
+					return false
+				}
 				why = " | " + openStacks()
 			}
 			r.Inconclusive(fmt.Sprintf("(d) %s: %v%s", h.id, err, why))
@@ -215,6 +225,57 @@ func (h *history) start(is ...int) bool {
 	}
 	h.renewHTTP()
 	return true
+}
+
+// openDeadlock looks for clock-free evidence that an opening meta store is
+// stuck: a goroutine inside store.open that is blocked on a lock with exactly
+// the same stack in two dumps.
+func openDeadlock() (site, stack string, ok bool) {
+	snap := func() map[string]string {
+		buf := make([]byte, 32<<20)
+		buf = buf[:runtime.Stack(buf, true)]
+		out := map[string]string{}
+		for _, g := range strings.Split(string(buf), "\n\n") {
+			if !strings.Contains(g, "services/meta.(*store).open") {
+				continue
+			}
+			lines := strings.Split(g, "\n")
+			hdr := lines[0]
+			if !(strings.Contains(hdr, "Lock") || strings.Contains(hdr, "semacquire")) {
+				continue
+			}
+			id := strings.Fields(hdr)[1]
+			var fr []string
+			for _, l := range lines[1:] {
+				if strings.HasPrefix(l, "\t") || l == "" {
+					continue
+				}
+				if j := strings.LastIndex(l, "("); j > 0 {
+					l = l[:j]
+				}
+				fr = append(fr, l)
+			}
+			out[id] = strings.Join(fr, " < ")
+		}
+		return out
+	}
+	a := snap()
+	time.Sleep(5 * time.Second)
+	b := snap()
+	for id, st := range a {
+		if b[id] != st {
+			continue
+		}
+		site = "unknown-site"
+		for _, f := range strings.Split(st, " < ") {
+			if k := strings.Index(f, "services/meta."); k >= 0 {
+				site = f[k+len("services/"):]
+				break
+			}
+		}
+		return site, st, true
+	}
+	return "", "", false
 }
 
 // openStacks summarises where the goroutines that are opening a meta store
